@@ -414,6 +414,13 @@ def run(F, rep):
     from rules import c13
     c13._footer(F, rep, F.funcs.get(c13.ARCH + "serialize"), F.funcs.get(c13.ARCH + "deserialize"))
     c13._varint(F, rep)
+    # descriptor-table predictor (the C++-matching update rule): the C03-PRED rules, run here under C02
+    from rules import c03
+    sub = type(rep)(rep.pid, rep.tier)
+    c03.run(F, sub)
+    for o in sub.obligations:
+        if o["rule"] == "C03-PRED":
+            rep.ob("C02-PRED", o["instance"], o["ok"], detail=o["detail"], site=o["site"], key=o["key"].replace("C03-PRED", "C02-PRED"))
     # collection varint thresholds
     cv = {k.rsplit("::", 1)[-1]: c.get("int") for k, c in F.consts.items() if k.startswith("ragc_common::collection::CollectionVarInt::")}
     rep.stat("collection_varint_consts", cv)
